@@ -28,72 +28,92 @@ def _s(sets):
 
 
 def check_case(case):
-    out = []
     ctx = common.context_of_case(case)
+    out = _check(case, lambda: ctx.lattice, '')
+    if out:
+        return out
+    # the same clauses for a lattice loaded with raw=True ("re-sort when set", anchor Lattice._fromlist): the stored concept list kept
+    # in canonical order but every neighbour list reversed, and the stored list reversed as a whole
+    import concepts
+    d = ctx.todict(ignore_lattice=False)
+    lat = d.get('lattice')
+    if lat:
+        d1 = dict(d, lattice=[(ex, in_, tuple(reversed(up)), tuple(reversed(lo))) for ex, in_, up, lo in lat])
+        out = _check(case, lambda: concepts.Context.fromdict(d1, raw=True).lattice, 'raw.neighbours-reversed/')
+        if out:
+            return out
+        nn = len(lat)
+        d2 = dict(d, lattice=[(ex, in_, tuple(nn - 1 - i for i in up), tuple(nn - 1 - i for i in lo)) for ex, in_, up, lo in reversed(lat)])
+        out = _check(case, lambda: concepts.Context.fromdict(d2, raw=True).lattice, 'raw.list-reversed/')
+    return out
+
+
+def _check(case, build, prefix):
+    out = []
     o = Oracle(case['rows'])
     try:
-        lattice = ctx.lattice
+        lattice = build()
         members = list(lattice)
     except Exception as e:
-        return [fail('lattice.build', 'context.lattice can be built and iterated', 'a lattice',
+        return [fail(prefix + 'lattice.build', 'context.lattice can be built and iterated', 'a lattice',
                      '%s: %s' % (type(e).__name__, e))]
     ext = [idx(c._extent) for c in members]
 
     # iteration order: shortlex of extents (strictly increasing keys)
     if ext != sorted(ext, key=slex) or any(slex(a) >= slex(b) for a, b in zip(ext, ext[1:])):
-        out.append(fail('iter.shortlex', 'iterating the lattice visits concepts in short-lexicographic order of their extents '
+        out.append(fail(prefix + 'iter.shortlex', 'iterating the lattice visits concepts in short-lexicographic order of their extents '
                         '(fewer objects first, ties by object position in the context)',
                         _s(sorted(ext, key=slex)), _s(ext)))
     # the order of the whole set of concepts of the table (oracle side)
     canon = sorted(o.extents(), key=slex)
     if set(ext) == set(canon) and len(ext) == len(canon) and ext != canon:
-        out.append(fail('iter.shortlex.oracle', 'iteration order is the shortlex order of all extents of the table',
+        out.append(fail(prefix + 'iter.shortlex.oracle', 'iteration order is the shortlex order of all extents of the table',
                         _s(canon), _s(ext)))
     # index = position, dindex = position in longlex order
     bad = [(sorted(e), c.index, k) for k, (c, e) in enumerate(zip(members, ext)) if c.index != k]
     if bad:
-        out.append(fail('index.position', 'concept.index is its position in iteration (shortlex) order',
+        out.append(fail(prefix + 'index.position', 'concept.index is its position in iteration (shortlex) order',
                         [[e, k] for e, _, k in bad[:5]], [[e, i] for e, i, _ in bad[:5]]))
     drank = {e: k for k, e in enumerate(sorted(ext, key=llex))}
     bad = [(sorted(e), c.dindex, drank[e]) for c, e in zip(members, ext) if c.dindex != drank[e]]
     if bad and len(set(ext)) == len(ext):
-        out.append(fail('dindex.position', 'concept.dindex is its position in long-lexicographic order (more objects first)',
+        out.append(fail(prefix + 'dindex.position', 'concept.dindex is its position in long-lexicographic order (more objects first)',
                         [[e, k] for e, _, k in bad[:5]], [[e, i] for e, i, _ in bad[:5]]))
     # infimum first and least, supremum last and greatest
     inf, sup = lattice.infimum, lattice.supremum
     if inf is not members[0]:
-        out.append(fail('infimum.first', 'lattice.infimum is the first concept', repr(members[0]), repr(inf)))
+        out.append(fail(prefix + 'infimum.first', 'lattice.infimum is the first concept', repr(members[0]), repr(inf)))
     e_inf = idx(inf._extent)
     if e_inf != o.cl(()) or any(not e_inf <= e for e in ext) or any(not e_inf <= e for e in o.extents()):
-        out.append(fail('infimum.least', 'lattice.infimum is the least concept', sorted(o.cl(())), sorted(e_inf)))
+        out.append(fail(prefix + 'infimum.least', 'lattice.infimum is the least concept', sorted(o.cl(())), sorted(e_inf)))
     if sup is not members[-1]:
-        out.append(fail('supremum.last', 'lattice.supremum is the last concept', repr(members[-1]), repr(sup)))
+        out.append(fail(prefix + 'supremum.last', 'lattice.supremum is the last concept', repr(members[-1]), repr(sup)))
     e_sup = idx(sup._extent)
     if e_sup != frozenset(range(o.n)) or any(not e <= e_sup for e in ext):
-        out.append(fail('supremum.greatest', 'lattice.supremum is the greatest concept', list(range(o.n)), sorted(e_sup)))
+        out.append(fail(prefix + 'supremum.greatest', 'lattice.supremum is the greatest concept', list(range(o.n)), sorted(e_sup)))
     # atoms = upper covers of the infimum (same objects, same order as infimum.upper_neighbors)
     atoms = lattice.atoms
     a_ext = [idx(a._extent) for a in atoms]
     if set(a_ext) != o.upper_covers(e_inf) or len(set(a_ext)) != len(a_ext):
-        out.append(fail('atoms.covers', 'lattice.atoms are the upper covers of the infimum',
+        out.append(fail(prefix + 'atoms.covers', 'lattice.atoms are the upper covers of the infimum',
                         _s(sorted(o.upper_covers(e_inf), key=slex)), _s(a_ext)))
     if len(atoms) != len(inf.upper_neighbors) or any(a is not b for a, b in zip(atoms, inf.upper_neighbors)):
-        out.append(fail('atoms.identity', 'lattice.atoms are the very upper neighbors of the infimum, in the same order',
+        out.append(fail(prefix + 'atoms.identity', 'lattice.atoms are the very upper neighbors of the infimum, in the same order',
                         [repr(x) for x in inf.upper_neighbors], [repr(x) for x in atoms]))
     if any(not any(a is c for c in members) for a in atoms):
-        out.append(fail('atoms.member', 'lattice.atoms are member objects of the lattice', 'elements of list(lattice)',
+        out.append(fail(prefix + 'atoms.member', 'lattice.atoms are member objects of the lattice', 'elements of list(lattice)',
                         [repr(a) for a in atoms]))
     # neighbor tuples: upper in shortlex order, lower in longlex order
     for c, e in zip(members, ext):
         up = [idx(d._extent) for d in c.upper_neighbors]
         if up != sorted(up, key=slex):
-            out.append(fail('upper.shortlex', 'every upper_neighbors tuple is in shortlex order',
+            out.append(fail(prefix + 'upper.shortlex', 'every upper_neighbors tuple is in shortlex order',
                             _s(sorted(up, key=slex)), _s(up), concept=sorted(e)))
             break
     for c, e in zip(members, ext):
         lo = [idx(d._extent) for d in c.lower_neighbors]
         if lo != sorted(lo, key=llex):
-            out.append(fail('lower.longlex', 'every lower_neighbors tuple is in longlex order',
+            out.append(fail(prefix + 'lower.longlex', 'every lower_neighbors tuple is in longlex order',
                             _s(sorted(lo, key=llex)), _s(lo), concept=sorted(e)))
             break
     # index and dindex are linear extensions of the order
@@ -103,10 +123,10 @@ def check_case(case):
             if ex < ey:
                 if not done_i and not x.index < y.index:
                     done_i = True
-                    out.append(fail('index.linear-extension', 'x < y implies index(x) < index(y)',
+                    out.append(fail(prefix + 'index.linear-extension', 'x < y implies index(x) < index(y)',
                                     'index(%r) < index(%r)' % (sorted(ex), sorted(ey)), [x.index, y.index]))
                 if not done_d and not x.dindex > y.dindex:
                     done_d = True
-                    out.append(fail('dindex.linear-extension', 'x < y implies dindex(x) > dindex(y)',
+                    out.append(fail(prefix + 'dindex.linear-extension', 'x < y implies dindex(x) > dindex(y)',
                                     'dindex(%r) > dindex(%r)' % (sorted(ex), sorted(ey)), [x.dindex, y.dindex]))
     return out[:10]
